@@ -184,7 +184,7 @@ def _twin_table(blob, refs):
     return tw(blob), [(off, tw(nm)) for off, nm in refs]
 
 
-def _gen_chain_case(rng, kind, big, cfg=None, tab=None):
+def _gen_chain_case(rng, kind, big, cfg=None, tab=None, counts=None, mode=None):
     """kind: 'verdef' | 'verneed'.  Returns the abstract case.  cfg = (le, is64, machine) and tab = (strtab, refs)
     are drawn here unless given (several sections of one file)."""
     le = rng.random() < 0.5
@@ -194,11 +194,14 @@ def _gen_chain_case(rng, kind, big, cfg=None, tab=None):
         le, is64, machine = cfg
     r = rng.random()
     n = 0 if r < 0.05 else 1 if r < 0.2 else rng.randint(2, 6) if r < 0.85 else rng.randint(7, 14 if not big else 40)
+    given = counts
     counts = []
     for _ in range(n):
         r = rng.random()
         counts.append(1 if r < 0.4 else 2 if r < 0.7 else rng.randint(3, 5) if r < 0.93 else rng.randint(6, 9))
-    mode = rng.choice(['dense', 'gaps', 'gaps', 'interleaved', 'interleaved'])
+    if given is not None:
+        counts, n = list(given), len(given)
+    mode = mode or rng.choice(['dense', 'gaps', 'gaps', 'interleaved', 'interleaved'])
     esz, asz = (SIZES['verdef'], SIZES['verdaux']) if kind == 'verdef' else (SIZES['verneed'], SIZES['vernaux'])
     ent_off, aux_off, size = _place_chains(rng, counts, esz, asz, mode)
     strtab, refs = tab or _strtab(rng, rng.randint(1, 6) + sum(counts) // 2)
@@ -254,6 +257,38 @@ def _gen_chain_case(rng, kind, big, cfg=None, tab=None):
         idxs = sorted(rng.sample(idxs, 14))
     plan = _file_plan(rng, ['shstr', 'target', 'strtab'])
     return [le, is64, machine, entries, bg, strtab, plan, idxs, ['none'], mode + '/' + flavour]
+
+
+def _gen_long_case(rng, kind, K, M):
+    """depth and size: ONE entry with K auxiliaries (vd_cnt / vn_cnt are 16-bit fields) in a chain of M entries with
+    one auxiliary each; a reader whose stack or time grows with the chain length shows here.  Few index queries
+    (each walks the whole chain): one carried by the deepest record, one absent, one at the front."""
+    at = rng.randrange(M + 1)
+    counts = [1] * at + [K] + [1] * (M - at)
+    c = _gen_chain_case(rng, kind, False, counts=counts, mode=rng.choice(['dense', 'interleaved']))
+    ents = c[3]
+    if kind == 'verdef':
+        ents[-1][2] = 0x7abc                       # a vd_ndx nobody else has (the generator draws 16-bit values)
+        for e in ents[:-1]:
+            if e[2] == 0x7abc:
+                e[2] = 3
+        deep, front = 0x7abc, ents[0][2]
+    else:
+        ents[at][-1][-1][2] = 0x7abc               # the LAST auxiliary of the long chain
+        for e in ents:
+            for a in e[-1]:
+                if a[2] == 0x7abc and a is not ents[at][-1][-1]:
+                    a[2] = 3
+        deep, front = 0x7abc, ents[0][-1][0][2]
+    present = {e[2] for e in ents} if kind == 'verdef' else {a[2] for e in ents for a in e[-1]}
+    absent = next(x for x in (0x7abd, 0x7abe, 0x7abf, 0x6001, 0x6002) if x not in present)
+    # every query that misses (or hits the deepest record) walks the whole chain in model and implementation
+    c[7] = sorted({deep, front, absent} if K > M else {deep, front})
+    # string table and target first in the file: the extracted model's reads cost O(file offset) each
+    sec_order, file_order, gaps = c[6]
+    c[6] = [sec_order, ['strtab', 'target'] + [r for r in file_order if r not in ('strtab', 'target')], gaps]
+    c[9] = 'long/K=%d/M=%d' % (K, M)
+    return c
 
 
 def _file_plan(rng, roles):
@@ -465,6 +500,11 @@ def gen(ctx):
         cases.append(('versym', c))
         if rng.random() < 0.15:
             cases.append(('versym_malformed', _malform_versym(rng, c)))
+    # depth and size: one entry with a very long auxiliary chain; a very long chain of entries
+    K = ctx.scale(1010, 3000)
+    for kind in ('verdef', 'verneed'):
+        cases.append((kind + '_long', _gen_long_case(rng, kind, K + rng.randint(0, 40), rng.randint(3, 12))))
+        cases.append((kind + '_long', _gen_long_case(rng, kind, 1, K + rng.randint(0, 40))))
     for _ in range(ctx.scale(110, 1500)):
         c = _gen_combo_case(rng, big)
         cases.append(('combo', c))
@@ -585,6 +625,26 @@ class _Image:
 
 
 # ------------------------------------------------------------------ observing the implementation
+PY_DEFAULT_RECURSION_LIMIT = 1000
+
+
+def _stock_interpreter(f):
+    """the implementation is observed under CPython's DEFAULT recursion limit (./check raises it for its own
+    S-expression code): a reader whose stack depth grows with the length of a chain must show as RecursionError"""
+    import functools
+    import sys
+
+    @functools.wraps(f)
+    def g(*a, **kw):
+        old = sys.getrecursionlimit()
+        sys.setrecursionlimit(PY_DEFAULT_RECURSION_LIMIT)
+        try:
+            return f(*a, **kw)
+        finally:
+            sys.setrecursionlimit(old)
+    return g
+
+
 def _rec(entry):
     return [[k, v] for k, v in entry.items()]
 
@@ -609,6 +669,7 @@ def _chain_opener(kind, img, n, elf=None):
     return open_sec
 
 
+@_stock_interpreter
 def _impl_chain(kind, img, n, idxs, elf=None, sec=None):
     """sec: an already instantiated section (or the error list of its instantiation); elf: the ELFFile further
     section objects are taken from (has_indexes is observed on a second object of the same file)"""
@@ -666,6 +727,7 @@ def _versym_opener(img, n, elf=None):
     return open_sec
 
 
+@_stock_interpreter
 def _impl_versym(img, n, elf=None, sec=None):
     if sec is None:
         sec = impl_call(_versym_opener(img, n, elf))
@@ -988,6 +1050,7 @@ COMBO_NAMES = {'shstr': b'.shstrtab', 'vdef': b'.gnu.version_d', 'vneed': b'.gnu
                'symtab': b'.dynsym', 'strd': b'.dynstr', 'strn': b'.verstr', 'strs': b'.symstr'}
 
 
+@_stock_interpreter
 def _impl_combo(img, index, order, how, d_idxs, n_idxs, deferred):
     """ONE ELFFile; the three sections are instantiated in [order], only then observed (in the same order)"""
     from elftools.elf.elffile import ELFFile
